@@ -43,13 +43,14 @@ var cpName = func() string {
 type srcCmd struct {
 	name string
 	args [][]byte
-	key  int // index into scenario.keys
+	key  int   // index into scenario.keys (first key)
+	keys []int // every key the command touches
 }
 
 type migStep struct {
 	at   int    // fires when this many keyed requests have been routed by the cluster
-	kind string // begin | move | finish
-	key  int    // slot of this key
+	kind string // begin | move | moveone | finish
+	key  int    // slot of this key (moveone: only this key is moved)
 	dst  int
 }
 
@@ -73,7 +74,7 @@ func hotScenario(r *hx.Rng, id int) *scenario {
 		if r.Chance(15) {
 			k = 1
 		}
-		sc.cmds = append(sc.cmds, srcCmd{name: "rpush", args: [][]byte{sc.keys[k], []byte(fmt.Sprintf("v%d", i+1))}, key: k})
+		sc.cmds = append(sc.cmds, srcCmd{name: "rpush", args: [][]byte{sc.keys[k], []byte(fmt.Sprintf("v%d", i+1))}, key: k, keys: []int{k}})
 	}
 	at := r.Intn(4)
 	dst := (fakeredis.HashSlot(sc.keys[0])*3/16384 + 1 + r.Intn(2)) % 3
@@ -89,20 +90,45 @@ func genScenario(r *hx.Rng, id int, maxCmds int) *scenario {
 	sc := &scenario{id: id, mode: []string{"batch", "pipeline", "txn", "txnpipe"}[r.Intn(4)], start: int64(100 + r.Intn(900)), batch: 1 + r.Intn(4)}
 	nk := 2 + r.Intn(3)
 	txnMode := sc.mode == "txn" || sc.mode == "txnpipe"
+	pair := r.Chance(40) // the first two keys share a hash tag: multi-key commands on them are legal
+	tag0 := ""
 	for i := 0; i < nk; i++ {
-		k := []byte(fmt.Sprintf("{g%d}k%d", r.Intn(40), i))
+		tag := fmt.Sprintf("g%d", r.Intn(40))
+		if pair && i == 1 {
+			tag = tag0
+		}
+		k := []byte(fmt.Sprintf("{%s}k%d", tag, i))
 		// a transactional link writes to one shard: all keys (and the checkpoint) start on node 0
 		for txnMode && fakeredis.HashSlot(k)*3/16384 != 0 {
-			k = []byte(fmt.Sprintf("{g%d}k%d", r.Intn(400), i))
+			tag = fmt.Sprintf("g%d", r.Intn(400))
+			k = []byte(fmt.Sprintf("{%s}k%d", tag, i))
+			if pair && i == 1 {
+				break
+			}
+		}
+		if i == 0 {
+			tag0 = tag
 		}
 		sc.keys = append(sc.keys, k)
 	}
+	if pair && txnMode && fakeredis.HashSlot(sc.keys[1])*3/16384 != 0 {
+		pair = false
+		sc.keys[1] = []byte("{g-none}k1")
+		for fakeredis.HashSlot(sc.keys[1])*3/16384 != 0 {
+			sc.keys[1] = []byte(fmt.Sprintf("{g%d}k1", r.Intn(400)))
+		}
+	}
 	n := 3 + r.Intn(maxCmds-2)
 	for i := 0; i < n; i++ {
+		if pair && r.Chance(25) {
+			// a multi-key command: during a migration with only one of the keys moved the node answers TRYAGAIN
+			sc.cmds = append(sc.cmds, srcCmd{name: "del", args: [][]byte{sc.keys[0], sc.keys[1], []byte(fmt.Sprintf("{%s}none%d", tag0, i+1))}, key: 0, keys: []int{0, 1}})
+			continue
+		}
 		k := r.Intn(nk)
 		v := []byte(fmt.Sprintf("v%d", i+1))
 		// lists make order and repetition visible in the final value as well
-		sc.cmds = append(sc.cmds, srcCmd{name: "rpush", args: [][]byte{sc.keys[k], v}, key: k})
+		sc.cmds = append(sc.cmds, srcCmd{name: "rpush", args: [][]byte{sc.keys[k], v}, key: k, keys: []int{k}})
 	}
 	// migrations: up to two, each begin -> (move)* -> finish at increasing request counts, or instant
 	at := 0
@@ -118,7 +144,11 @@ func genScenario(r *hx.Rng, id int, maxCmds int) *scenario {
 		sc.steps = append(sc.steps, migStep{at: at, kind: "begin", key: k, dst: dst})
 		at += r.Intn(3)
 		if r.Chance(60) {
-			sc.steps = append(sc.steps, migStep{at: at, kind: "move", key: k})
+			kind := "move"
+			if r.Chance(50) {
+				kind = "moveone" // keys of the slot travel one at a time
+			}
+			sc.steps = append(sc.steps, migStep{at: at, kind: kind, key: k})
 			at += r.Intn(3)
 		}
 		sc.steps = append(sc.steps, migStep{at: at, kind: "finish", key: k})
@@ -173,6 +203,8 @@ func runScenario(sc *scenario, tr *hx.Trace) int {
 				c.BeginMigrate(slot, st.dst)
 			case "move":
 				c.MoveKeys(slot)
+			case "moveone":
+				c.MoveKeys(slot, string(sc.keys[st.key]))
 			case "finish":
 				c.FinishMigrate(slot)
 			}
@@ -195,10 +227,14 @@ func runScenario(sc *scenario, tr *hx.Trace) int {
 	pipe := sc.mode == "pipeline" || sc.mode == "txnpipe"
 	bytes_, ends := sc.stream()
 	keyOf := make([]int, len(sc.cmds))
+	keysOf := make([][]int, len(sc.cmds))
 	for i, c := range sc.cmds {
 		keyOf[i] = c.key + 1
+		for _, k := range c.keys {
+			keysOf[i] = append(keysOf[i], k+1)
+		}
 	}
-	tr.Emit(map[string]interface{}{"ev": "Reset", "id": sc.id, "mode": sc.mode, "txn": txn, "pipe": pipe, "keyOf": keyOf, "nkeys": len(sc.keys), "batch": sc.batch, "steps": len(sc.steps)})
+	tr.Emit(map[string]interface{}{"ev": "Reset", "id": sc.id, "mode": sc.mode, "txn": txn, "pipe": pipe, "keysOf": keysOf, "nkeys": len(sc.keys), "batch": sc.batch, "steps": len(sc.steps)})
 	logBase := len(cs.LogMerged())
 
 	// project the cluster-wide execution log onto source indices
@@ -211,12 +247,19 @@ func runScenario(sc *scenario, tr *hx.Trace) int {
 		log := cs.LogMerged()
 		sort.Slice(log, func(i, j int) bool { return log[i].Seq < log[j].Seq })
 		for _, e := range log {
-			if e.Seq <= logBase || len(e.Args) == 0 || string(e.Args[0]) == cpName || e.Name != "rpush" {
+			if e.Seq <= logBase || len(e.Args) == 0 || string(e.Args[0]) == cpName || (e.Name != "rpush" && e.Name != "del") {
 				continue
 			}
 			idx := 0
 			for i, c := range sc.cmds {
-				if c.name == e.Name && len(c.args) == len(e.Args) && string(c.args[0]) == string(e.Args[0]) && string(c.args[1]) == string(e.Args[1]) {
+				if c.name != e.Name || len(c.args) != len(e.Args) {
+					continue
+				}
+				same := true
+				for j := range c.args {
+					same = same && string(c.args[j]) == string(e.Args[j])
+				}
+				if same {
 					idx = i + 1
 				}
 			}
